@@ -1,6 +1,7 @@
 // C02: matrix operators/functions, all nine shapes
 // NPARTS 5
 #include "common.hpp"
+#include <glm/ext/matrix_integer.hpp>
 #include <glm/gtc/matrix_access.hpp>
 #include <glm/gtx/matrix_operation.hpp>
 #include <glm/gtx/matrix_major_storage.hpp>
